@@ -202,6 +202,12 @@ def _substitute_original_strings(original_source: str, new_source: str) -> str:
             prefix = "".join(sorted(new_modifiers, key="frb".index))
             most_common_original_formatting = most_common_original_formatting.lstrip("brf")
             most_common_original_formatting = prefix + most_common_original_formatting
+            # Without its prefix the spelling may denote another string (r"\n" vs "\n")
+            try:
+                if ast.literal_eval(most_common_original_formatting) != node.value:
+                    continue
+            except (ValueError, SyntaxError):
+                continue
 
         replacements[node] = most_common_original_formatting
 
